@@ -654,8 +654,70 @@ func (g *Gen) expiryProgram(n int) {
 	}
 }
 
+// subdocProgram: JSON object documents, dotted paths of every kind, sub-document writes / inserts / reads.
+func (g *Gen) subdocProgram(n int) {
+	g.colls = []string{"c0"}
+	g.keys = []string{"k0", "k1"}
+	docs := []string{`{"a":1,"n":{"x":2,"y":{"z":3}},"t":true}`, `{"a":null,"arr":[1,2],"s":"str"}`, `{}`, `{"n":{"x":{"deep":{"er":1}}},"z":0}`,
+		`{"b":"x","a":{"k":[1,{"q":2}]}}`, `{"n":{},"nul":null}`}
+	paths := []string{"a", "n.x", "n.y.z", "n.q", "zz.b", "a.b", "t.x", "arr.x", "n", "s", "nul", "nul.x", "n.x.deep.er", "new", "n.y", "a.k", "z.z.z"}
+	badPaths := []string{"", "a[0]", "a.`b`", "n..x"}
+	vals := []string{"5", `"s"`, `{"k":1}`, `[1,2]`, "null", "true", `{"b":2,"a":1}`, "0"}
+	for i := 0; i < n; i++ {
+		g.tick()
+		c, k := "c0", pick(g.r, g.keys)
+		var l Line
+		l.Pos = []string{c, k}
+		path := pick(g.r, paths)
+		if g.r.chance(6) {
+			path = pick(g.r, badPaths)
+		}
+		switch g.r.weighted([]int{18, 6, 4, 30, 17, 25}) {
+		case 0:
+			l.Op = "set"
+			l.add("exp", u(pick(g.r, []uint64{0, 0, 300})))
+			l.add("raw", "0")
+			l.add("v", pick(g.r, docs))
+		case 1:
+			l.Op = "delete"
+		case 2:
+			l.Op = "set"
+			l.add("exp", "0")
+			l.add("raw", "1")
+			l.add("v", pick(g.r, []string{"notjson", "[1,2]", `"str"`, "17"}))
+		case 3:
+			l.Op = "wsd"
+			l.add("path", path)
+			l.add("cas", u(g.casArg(c, k)))
+			if g.r.chance(85) {
+				l.add("v", pick(g.r, vals))
+			} else if g.r.chance(50) {
+				l.add("v", "")
+			}
+		case 4:
+			l.Op = "sdi"
+			l.add("path", path)
+			l.add("cas", u(g.casArg(c, k)))
+			l.add("v", pick(g.r, vals))
+		case 5:
+			l.Op = "gsd"
+			l.add("path", path)
+		}
+		res := g.emit(l)
+		g.stats["op:"+l.Op]++
+		g.stats["cell:subdoc/"+l.Op+"/"+path+"/"+strings.SplitN(strings.TrimPrefix(res, "r="), " ", 2)[0]]++
+		g.rb(c, k)
+	}
+}
+
 // program generates one program of n operations under the generator's profile.
 func (g *Gen) program(n int) {
+	if g.profile == "subdoc" {
+		g.phys = 1 << 20
+		g.now = 1700000000
+		g.subdocProgram(n)
+		return
+	}
 	if g.profile == "expiry" {
 		g.phys = 1 << 20
 		g.now = 1700000000
